@@ -13,6 +13,12 @@ from checks import corpus
 
 
 def well_formed_error(r):
+    if not getattr(r, 'accepts_json', True):
+        # the request's Accept header excludes JSON (corpus shapes
+        # *-accept-text): the error is rendered in a type the client accepts;
+        # "JSON error response" is read as C15 spells it out, "when the
+        # client accepts JSON" (DESIGN 11.4).  The state clauses still apply.
+        return bool(r.body)
     js = r.json
     if not isinstance(js, dict) or not isinstance(js.get('errors'), list) \
             or not js['errors']:
@@ -93,7 +99,9 @@ def _families(tier):
     shapes = corpus.shapes(tier)
     if tier == 'quick':
         keep = {'alloc-put', 'alloc-put-newproj', 'alloc-delete',
-                'inv-put-all-2', 'traits-put', 'aggs-put-new'}
+                'inv-put-all-2', 'traits-put', 'aggs-put-new',
+                'class-put-new', 'class-post-new', 'trait-put-new',
+                'class-delete', 'trait-delete-unused'}
         shapes = [s for s in shapes if s.name in keep]
         return [make_family(s) for s in shapes]
     # the shapes with the most statements x data paths: two fault kinds
